@@ -62,6 +62,7 @@ static void forge_pair(const cons *C, tuple *A, tuple *B, size_t mlen, size_t ad
                        const unsigned char *adA, const unsigned char *adB, size_t adl, const unsigned char *nA, const unsigned char *nB, const keyctx *kA, const keyctx *kB)
 {
     static unsigned char imgA[6 * OUTCAP], imgB[6 * OUTCAP]; const char *why = ""; char key[200]; int b1, b2;
+    snprintf(vf_ctx, sizeof vf_ctx, "%s/%s@%ld/mlen=%zu/adlen=%zu", C->name, what, pos, mlen, adlen);
     if (pos == 9) VF_SAMPLE_CASE(5, "%s mlen=%zu adlen=%zu forgery '%s' at position %ld: every decrypt form must fail, report length 0, and leave identical output buffers for two different (key, plaintext) tuples; presented tag=%s", C->name, mlen, adlen, what, pos, vf_hex(tA, C->tlen));
     b1 = forged_call(C, A, cA, clen, tA, adA, adl, nA, kA, imgA, &why);
     b2 = forged_call(C, B, cB, clen, tB, adB, adl, nB, kB, imgB, &why);
@@ -87,6 +88,9 @@ static void cons_case(const cons *C, size_t mlen, size_t adlen)
 #define FP(what, pos, CA, CB, CL, TA, TB, ADA, ADB, ADL, NA, NB, KA, KB) forge_pair(C, &A, &B, mlen, adlen, what, (long) (pos), CA, CB, CL, TA, TB, ADA, ADB, ADL, NA, NB, KA, KB)
     for (b = 0; b < 8 * mlen; b++) { flip(xa, A.c, mlen, b); flip(xb, B.c, mlen, b); FP("ciphertext-bit", b, xa, xb, mlen, A.tag, B.tag, A.ad, B.ad, adlen, A.nonce, B.nonce, &A.kc, &B.kc); }
     for (b = 0; b < 8 * T; b++) { flip(ya, A.tag, T, b); flip(yb, B.tag, T, b); FP("tag-bit", b, A.c, B.c, mlen, ya, yb, A.ad, B.ad, adlen, A.nonce, B.nonce, &A.kc, &B.kc); }
+    /* structured 2-bit forgeries: the same bit flipped in two (three, four) 16-byte lanes of a 32/64-byte tag - cancels in a verifier that XORs lanes */
+    if (T >= 32) for (b = 0; b < 128; b++) { size_t l2; for (l2 = 1; l2 < T / 16; l2++) { flip(ya, A.tag, T, b); ya[(b >> 3) + 16 * l2] ^= (unsigned char) (1u << (b & 7)); flip(yb, B.tag, T, b); yb[(b >> 3) + 16 * l2] ^= (unsigned char) (1u << (b & 7));
+        FP("tag-2lane-bit", b + 1000 * l2, A.c, B.c, mlen, ya, yb, A.ad, B.ad, adlen, A.nonce, B.nonce, &A.kc, &B.kc); } }
     for (b = 0; b < 8 * adlen; b++) { flip(xa, A.ad, adlen, b); flip(xb, B.ad, adlen, b); FP("ad-bit", b, A.c, B.c, mlen, A.tag, B.tag, xa, xb, adlen, A.nonce, B.nonce, &A.kc, &B.kc); }
     if (C->has_ad) {       /* AD truncated / extended / dropped */
         if (adlen) { FP("ad-truncated", adlen - 1, A.c, B.c, mlen, A.tag, B.tag, A.ad, B.ad, adlen - 1, A.nonce, B.nonce, &A.kc, &B.kc);
@@ -168,6 +172,7 @@ static void mac_case(const char *name, mac_fn mac, vfy_fn vfy, size_t taglen, si
     if (vfy(tag, m, mlen, key) != 0) { snprintf(kk, sizeof kk, "%s/valid-rejected/mlen=%zu", name, mlen); vf_fail(kk, "correct tag rejected"); }
 #define VT(what, pos, TAG, M, ML, K) do { n_eval++; n_nontriv++; if (vfy(TAG, M, ML, K) == 0) { snprintf(kk, sizeof kk, "%s/%s@%ld/mlen=%zu", name, what, (long) (pos), mlen); vf_fail(kk, "forgery accepted"); } } while (0)
     for (b = 0; b < 8 * taglen; b++) { flip(t2, tag, taglen, b); VT("tag-bit", b, t2, m, mlen, key); }
+    if (taglen >= 32) for (b = 0; b < 128; b++) { size_t l2; for (l2 = 1; l2 < taglen / 16; l2++) { flip(t2, tag, taglen, b); t2[(b >> 3) + 16 * l2] ^= (unsigned char) (1u << (b & 7)); VT("tag-2lane-bit", b + 1000 * l2, t2, m, mlen, key); } }
     for (b = 0; b < 8 * mlen; b++) { flip(m2, m, mlen, b); VT("message-bit", b, tag, m2, mlen, key); }
     for (b = 0; b < 256; b++) {
         flip(k2, key, 32, b);
@@ -262,6 +267,7 @@ int main(void)
     size_t i;
     vf_init_seed();
     thorough = vf_tier_thorough();
+    strcpy(vf_ctx, "c02");
     if (sodium_init() < 0) return 2;
     printf("INFO features avx2=%d ssse3=%d sse2=%d aesni=%d gcm=%d\n", sodium_runtime_has_avx2(), sodium_runtime_has_ssse3(), sodium_runtime_has_sse2(), sodium_runtime_has_aesni(), crypto_aead_aes256gcm_is_available());
     if (thorough) for (i = 0; i <= 300; i++) LENS[nlens++] = i; else for (i = 0; i < 17; i++) LENS[nlens++] = MLQ[i];
